@@ -1,4 +1,5 @@
 CONSTANTS Conns <- C2
+  Dpid <- DpidId
   I = 1
   TO = 1
   Late = 0
